@@ -77,6 +77,7 @@ func c08teardown() {
 
 // = rdb.initCodec (unexported) + the key layout
 func c08codec(class string, serial uint32) *dnsdata.Codec {
+	class = strings.TrimSuffix(class, "b")
 	c := new(dnsdata.Codec)
 	c.Serial = serial
 	c.Acc.Ranger.Enable()
@@ -343,9 +344,21 @@ func c08compile(class string, lines []string, serial uint32) (dir string, err er
 	if err := os.MkdirAll(dir, 0o755); err != nil {
 		panic(err)
 	}
-	o := rdb.CompilationOptions{UseV2KeySyntax: class == "rdb2", BatchNumParallel: 2, NumCPU: 2}
+	o := rdb.CompilationOptions{UseV2KeySyntax: strings.HasPrefix(class, "rdb2"), BatchNumParallel: 2, NumCPU: 2}
+	if strings.HasSuffix(class, "b") {
+		// the SST-file builder (slow to set up: it reserves room for 2*10^7 entries)
+		o = rdb.CompilationOptions{UseV2KeySyntax: strings.HasPrefix(class, "rdb2"), UseBuilder: true, NumCPU: 2}
+	}
+	t0 := time.Now()
 	_, err = rdb.CompileToSpecificRDBVersion(dataPath, dir, o)
+	c08timing("compile", t0)
 	return dir, err
+}
+
+func c08timing(what string, t0 time.Time) {
+	if os.Getenv("C08_TIMING") != "" {
+		fmt.Fprintf(os.Stderr, "%s %v\n", what, time.Since(t0))
+	}
 }
 
 func c08errClass(err error) string {
@@ -365,8 +378,12 @@ func c08errClass(err error) string {
 func c08apply(dir string, diff []string, serial uint32, before c08dumped) (string, c08dumped) {
 	diffPath := c08writeFile("diff", diff, serial)
 	defer os.Remove(diffPath)
+	t0 := time.Now()
 	err := rdb.ApplyDiff(diffPath, dir)
+	c08timing("applydiff", t0)
+	t0 = time.Now()
 	after := c08dump(dir)
+	c08timing("dump", t0)
 	if err != nil {
 		same := "same"
 		if after.raw != before.raw {
@@ -379,7 +396,7 @@ func c08apply(dir string, diff []string, serial uint32, before c08dumped) (strin
 
 func c08classSerials(tok string, n int) (string, []uint32, bool) {
 	p := strings.Split(tok, ":")
-	if len(p) != n+1 || (p[0] != "rdb1" && p[0] != "rdb2") {
+	if len(p) != n+1 || (p[0] != "rdb1" && p[0] != "rdb2" && p[0] != "rdb1b" && p[0] != "rdb2b") {
 		return "", nil, false
 	}
 	ser := make([]uint32, n)
@@ -479,7 +496,7 @@ func c08runChain(f []string) (string, string) {
 				}
 			} else {
 				// impl vs impl: a fresh real compile of B
-				fdir, err := c08compile(class, c08parseLines(f[i+1]), serial)
+				fdir, err := c08compile(strings.TrimSuffix(class, "b"), c08parseLines(f[i+1]), serial)
 				if err != nil {
 					fail(step, "compile-B-failed")
 				} else {
@@ -610,6 +627,9 @@ func (g *gen) c08newLine(df *dataFile, o dataOpts) string {
 func (g *gen) c08edit(df *dataFile, o dataOpts, raw []string) []string {
 	out := append([]string{}, raw...)
 	n := 1 + g.intn(6)
+	if len(raw) > 80 && g.bool() {
+		n = 10 + g.intn(30)
+	}
 	for i := 0; i < n; i++ {
 		switch g.intn(7) {
 		case 0, 1: // add
@@ -764,10 +784,14 @@ func (g *gen) c08failing(cur, b []string) []string {
 	return out
 }
 
-func (g *gen) c08rawFile(o dataOpts, serial uint32) (*dataFile, []string) {
+func (g *gen) c08rawFile(o dataOpts, serial uint32, bulk int) (*dataFile, []string) {
 	for {
 		df := g.genDataFile(o)
 		raw := c08clean(df.lines)
+		// bulk: many lines over few owners (many values under one key, equal lines)
+		for i := 0; i < bulk; i++ {
+			raw = append(raw, g.c08newLine(df, o))
+		}
 		// a few subnets more, so that `!` lines are there to move
 		for i, n := 0, g.intn(4); i < n; i++ {
 			raw = append(raw, g.c08netLine())
@@ -812,7 +836,7 @@ func c08gen(g *gen, tier string, w *bufio.Writer) {
 		c08witness(w)
 		return
 	}
-	nChains, nMtime := 14, 4
+	nChains, nMtime := 28, 8
 	if tier == "thorough" {
 		nChains, nMtime = 220, 30
 	}
@@ -825,7 +849,11 @@ func c08gen(g *gen, tier string, w *bufio.Writer) {
 		} else {
 			o.maxZone = 2
 		}
-		df, raw := g.c08rawFile(o, serial)
+		bulk := 0
+		if i%4 == 3 {
+			bulk = 60 + g.intn(200)
+		}
+		df, raw := g.c08rawFile(o, serial, bulk)
 		if i%7 == 0 {
 			raw = nil // from the empty file
 		}
@@ -863,6 +891,9 @@ func c08gen(g *gen, tier string, w *bufio.Writer) {
 			cur, curRaw = b, nraw
 		}
 		for _, class := range classes {
+			if i%14 == 5 && len(a) > 0 {
+				class += "b" // the database the diff is applied to comes from the builder
+			}
 			c08emitChain(w, class, serial, a, steps, failing)
 		}
 	}
